@@ -321,8 +321,15 @@ char* Arena::sformat(const char* fmt, ...) noexcept {
   va_list ap;
 
   va_start(ap, fmt);
-  size = unsigned(vsnprintf(buf, ASMJIT_ARRAY_SIZE(buf) - 1, fmt, ap));
+  int result = vsnprintf(buf, ASMJIT_ARRAY_SIZE(buf) - 1, fmt, ap);
   va_end(ap);
+
+  if (ASMJIT_UNLIKELY(result < 0)) {
+    return nullptr;
+  }
+
+  // `vsnprintf()` returns the size the complete output would have - the output stored in `buf` is truncated.
+  size = Support::min<size_t>(size_t(result), ASMJIT_ARRAY_SIZE(buf) - 2);
 
   buf[size++] = 0;
   return static_cast<char*>(dup(buf, size));
